@@ -145,6 +145,13 @@ def plan_tx(tier, seed, props):
     return items
 
 
+def plan_tx_built(tier, seed, props):
+    """C13: sequences of well-formed hunks built from fields (pairs and triples: a later hunk may descend into what an earlier one
+    added), rendered, read back and applied - judged for crashes only"""
+    q = tier == "quick"
+    return [dict(family="hunks_wf", opts=NONE, frac=0.25 if q else 1.0, void=False, mode="built", max=2500 if q else 20000, nf=False)]
+
+
 class Stage:
     def __init__(self, driver, module, planfn, props=None, bins=False, table="plain", yaml_every=8, extra=None, followup=None, scale=1.0):
         self.driver, self.module, self.planfn = driver, module, planfn
@@ -316,6 +323,7 @@ CHECKS = {
     "C12": dict(stages=[Stage("mp", "TraceMerge", plan_mp)] + content("mp", "TraceMerge", plan_mp, scale=0.5), design=["MCMerge"],
                 rule="session = one merge patch document read by ReadMergeString and applied to every target of the family"),
     "C13": dict(stages=[Stage("cr", "TraceCrash", plan_cr, extra={"tier": "TIER"}),
+                        Stage("tx", "TraceText", plan_tx_built, table="hostile"),
                         Stage("proc", "TraceCli", lambda t, s, p: [], bins=True, extra={"frac": "FRAC"}),
                         Stage("crcli", "TraceCli", lambda t, s, p: [], bins=True, extra={"n": "NCLI"})], design=["MCText", "MCCli"],
                 rule="session = one input: a line sequence over 46 line kinds (all of length <= 2, sampled/all of length 3, seeded longer ones), "
